@@ -12,6 +12,7 @@ import (
 	"strconv"
 	"strings"
 	"sync"
+	"sync/atomic"
 	"testing"
 	"time"
 
@@ -200,6 +201,26 @@ func matchFinding(open []Finding, d Disc, feats []string) *Finding {
 	return nil
 }
 
+var failedOnce atomic.Bool
+
+// Shrinking reports whether a failing case has already been seen in this process (rapid is now
+// minimising it). Checks shorten their "wait for a delivery that never comes" deadlines then; the
+// driver confirms the minimised case with full deadlines (TestReplay) and falls back to the
+// original failing case (<replay>.orig.json) otherwise.
+func Shrinking() bool { return failedOnce.Load() }
+
+// Wait returns the deadline to use for a bounded wait.
+func Wait(full time.Duration) time.Duration {
+	if os.Getenv("VERIF_REPLAY") != "" || !Shrinking() {
+		return full
+	}
+	d := full / 8
+	if d < 250*time.Millisecond {
+		d = 250 * time.Millisecond
+	}
+	return d
+}
+
 // RunProp drives the property with rapid and writes the partial evidence file named by VERIF_OUT.
 func RunProp[C any](t *testing.T, s Spec[C]) {
 	ev := &evidence{NonTrivial: map[string]bool{}, Classes: map[string]int64{}, Counters: map[string]int64{},
@@ -215,6 +236,7 @@ func RunProp[C any](t *testing.T, s Spec[C]) {
 	replayPath := filepath.Join(replayDir(), fmt.Sprintf("%s-seed%d-shard%s.json", s.ID, envInt("VERIF_SEED", 0), shard))
 	walPath := filepath.Join(replayDir(), fmt.Sprintf("%s-seed%d-shard%s.inflight.json", s.ID, envInt("VERIF_SEED", 0), shard))
 	_ = os.Remove(replayPath)
+	_ = os.Remove(strings.TrimSuffix(replayPath, ".json") + ".orig.json")
 	_ = os.Remove(walPath)
 	start := time.Now()
 	out := os.Getenv("VERIF_OUT")
@@ -227,6 +249,7 @@ func RunProp[C any](t *testing.T, s Spec[C]) {
 		} else {
 			// a run that ends without a failing case leaves no replay file behind
 			_ = os.Remove(replayPath)
+			_ = os.Remove(strings.TrimSuffix(replayPath, ".json") + ".orig.json")
 			ev.Violations = 0
 			ev.Discs = nil
 			ev.Replay = ""
@@ -292,6 +315,9 @@ func RunProp[C any](t *testing.T, s Spec[C]) {
 			ev.Discs = bad
 			ev.Replay = replayPath
 			ev.mu.Unlock()
+			if !failedOnce.Swap(true) {
+				writeJSON(strings.TrimSuffix(replayPath, ".json")+".orig.json", c)
+			}
 			writeJSON(replayPath, c)
 			var sb strings.Builder
 			for _, d := range bad {
